@@ -127,7 +127,7 @@ fn blocked_calls(o: &QObs) -> Vec<(usize, usize, String)> {
 
 pub fn body(sc: QScenario, obs: Arc<Mutex<QObs>>) {
     // std's Condvar may return from a wait that nobody notified: offered as a deviation
-    ctl::spurious(true);
+    ctl::spurious(crate::l2::spurious_now());
     let q: Arc<MessagesQueue<u32>> = MessagesQueue::with_capacity(8);
     let mut hs = Vec::new();
     for (ci, prog) in sc.consumers.iter().enumerate() {
@@ -650,6 +650,7 @@ pub fn cfg_for(sc: &QScenario, tier: Tier) -> L2Cfg {
         bound: Some(bound),
         max_execs: if tier == Tier::Thorough { 3_000_000 } else { 200_000 },
         wall: std::time::Duration::from_secs(if tier == Tier::Thorough { 400 } else { 40 }),
+        spurious_upto: Some(if tier == Tier::Thorough { bound.saturating_sub(1) } else { bound }),
     }
 }
 
